@@ -20,6 +20,13 @@ const arbMaxColl = 2
 // collChoices: nil / empty / 1 / 2 entries at the top three levels of a value,
 // nil / empty / 1 entry below (bounds stated in DESIGN 6).
 func (p *Path) collChoices(depth int) int {
+	if p.E.Cfg.ArbNarrow {
+		// nil, empty, one item at the outer two levels; nil or empty below
+		if depth <= 1 {
+			return 3
+		}
+		return 2
+	}
 	lim := 1
 	if p.E.Cfg.ArbWide {
 		lim = 2
@@ -312,6 +319,17 @@ func init() {
 			p.store(ptr, p.arbitrary(elem, name, 0, site), site)
 			return nil
 		}
+		I["vrt.Same"] = func(p *Path, a []Value, site ssa.Instruction) Value {
+			// structural equality of two values of possibly different (but like-shaped) types
+			x, y := a[0].(IfaceV), a[1].(IfaceV)
+			if x.T == nil || y.T == nil {
+				return mkBool(x.T == nil && y.T == nil)
+			}
+			if !sameShape(x.V, y.V, 0) {
+				p.unsupported("vrt.Same: the two values have different Go shapes (%s vs %s)", x.T, y.T)
+			}
+			return BoolV{T: p.deepEq(x.V, y.V, x.T, site)}
+		}
 		I["vrt.Equal"] = func(p *Path, a []Value, site ssa.Instruction) Value {
 			x, y := a[0].(IfaceV), a[1].(IfaceV)
 			if x.T == nil || y.T == nil {
@@ -323,4 +341,73 @@ func init() {
 			return BoolV{T: p.deepEq(x.V, y.V, x.T, site)}
 		}
 	})
+}
+
+// sameShape: the two values are built alike (so that deepEq can walk them in step).
+func sameShape(a, b Value, depth int) bool {
+	if depth > 40 {
+		return true
+	}
+	switch x := a.(type) {
+	case StructV:
+		y, ok := b.(StructV)
+		if !ok || len(x.F) != len(y.F) {
+			return false
+		}
+		for i := range x.F {
+			if !sameShape(x.F[i], y.F[i], depth+1) {
+				return false
+			}
+		}
+		return true
+	case IntV:
+		_, ok := b.(IntV)
+		return ok
+	case BoolV:
+		_, ok := b.(BoolV)
+		return ok
+	case FloatV:
+		_, ok := b.(FloatV)
+		return ok
+	case StrV:
+		_, ok := b.(StrV)
+		return ok
+	case OpaqueV:
+		_, ok := b.(OpaqueV)
+		return ok
+	case SliceV:
+		switch b.(type) {
+		case SliceV, BytesV:
+			return true
+		}
+		return false
+	case BytesV:
+		switch b.(type) {
+		case SliceV, BytesV:
+			return true
+		}
+		return false
+	case MapV:
+		_, ok := b.(MapV)
+		return ok
+	case PtrV:
+		y, ok := b.(PtrV)
+		if !ok {
+			return false
+		}
+		if x.Obj == nil || y.Obj == nil {
+			return true
+		}
+		return sameShape(x.Obj.Val, y.Obj.Val, depth+1)
+	case IfaceV:
+		y, ok := b.(IfaceV)
+		if !ok {
+			return false
+		}
+		if x.T == nil || y.T == nil {
+			return true
+		}
+		return sameShape(x.V, y.V, depth+1)
+	}
+	return true
 }
